@@ -45,7 +45,11 @@ def cast_lossless(frm, to):
 NUMERIC_CASTS = ('IntToInt', 'FloatToInt', 'IntToFloat', 'FloatToFloat')
 ARITH_OPS = ('Add', 'Sub', 'Mul', 'Shl', 'AddWithOverflow', 'SubWithOverflow', 'MulWithOverflow', 'AddUnchecked',
              'SubUnchecked', 'MulUnchecked', 'ShlUnchecked', 'Neg')
-BAD_NUM_CALL = re.compile(r'^core::num::.*::(wrapping_|saturating_|overflowing_|unchecked_|unbounded_)\w+$')
+BAD_NUM_CALL = re.compile(r'^core::num::.*::((wrapping_|saturating_|overflowing_|unchecked_|unbounded_)\w+|unsigned_abs|abs|abs_diff|signum|'
+                          r'cast_unsigned|cast_signed|rem_euclid|div_euclid|isqrt|ilog\w*|pow|next_power_of_two|reverse_bits|swap_bytes|rotate_\w+|'
+                          r'from_(be|le|ne)_bytes|to_(be|le|ne)_bytes)$')
+# clamping silently normalises an out-of-range value instead of rejecting it
+CLAMP_CALL = re.compile(r'^core::cmp::Ord::(min|max|clamp)$|^core::cmp::(min|max)$')
 CHECKED_CALL = re.compile(r'^core::num::.*::checked_\w+$')
 
 
@@ -85,6 +89,8 @@ def unchecked_arith(fn):
         c = norm(t.get('callee') or '')
         if BAD_NUM_CALL.match(c):
             yield bb, 'call %s' % c
+        elif CLAMP_CALL.match(c) and any(int_info(norm(x)) is not None for x in (t.get('targs') or [])):
+            yield bb, 'call %s (clamps instead of rejecting)' % c
 
 
 NANOS_LIMIT = 1_000_000_000
@@ -188,7 +194,7 @@ def check_crate(rep, crate, cfg, counts):
         for bb, what in bad:
             rep.bad('R19.b', '%s|%s' % (fn.kpath, what), 'unchecked arithmetic (%s) at %s' % (what, fn.where(bb)))
         if not bad:
-            rep.ok('R19.b', site, 'no primitive integer +,-,*,<< and no wrapping/saturating/overflowing/unchecked call')
+            rep.ok('R19.b', site, 'no primitive integer +,-,*,<< and no wrapping/saturating/overflowing/unchecked, sign-discarding or clamping call')
         for bb, t in fn.calls():
             c = norm(t.get('callee') or '')
             if CHECKED_CALL.match(c):
